@@ -4,8 +4,8 @@ import gen
 from common import Case
 
 PID = "C15"
-OPNAMES = {1: "notif_enc", 2: "notif_dec", 3: "open_dec", 6: "open_reenc", 8: "addpath_dec", 9: "addpath_enc", 10: "mpcap"}
-ORACLES = {1: 101, 2: 102, 3: 103, 6: 106, 8: 108, 9: 109, 10: 110}
+OPNAMES = {12: "open_enc_struct", 1: "notif_enc", 2: "notif_dec", 3: "open_dec", 6: "open_reenc", 8: "addpath_dec", 9: "addpath_enc", 10: "mpcap"}
+ORACLES = {12: 112, 1: 101, 2: 102, 3: 103, 6: 106, 8: 108, 9: 109, 10: 110}
 RULE = ("seeded generator: NOTIFICATION (code, subcode, data) with data lengths biased to 0..8 and the boundaries "
         "0,1,2,4074,4075; OPEN bodies from a grammar (70% well-formed: 1-3 capability parameters, 1-5 capabilities; "
         "30% with a targeted fault: lying/truncated length octets, wrong parameter type, short body, trailing bytes) "
@@ -60,6 +60,19 @@ def cases(rng, tier):
             b = struct.pack(">BHHIB", 4, 65000, 90, 0x0A000002, total) + params
             cs.append(Case(3, [], [b], "open.max-params"))
             cs.append(Case(6, [], [b], "open.max-params"))
+    # encode an OPEN given as a structure (any number of parameters, each any number of capabilities incl. none): the encoder
+    # emits the canonical encoding iff the value is representable (an empty capabilities parameter is not), else an error
+    for _ in range(n // 2):
+        nparams = rng.choice([0, 1, 1, 2, 3])
+        ints = [rng.choice([4, 4, 4, rng.randint(0, 255)]), gen.r_u16(rng), rng.choice([0, 3, 90, gen.r_u16(rng)]), gen.r_u32(rng)]
+        vals = []
+        for _ in range(nparams):
+            k = rng.choice([0, 1, 1, 2, 4])
+            ints.append(k)
+            for _ in range(k):
+                ints.append(rng.choice([1, 2, 64, 65, 69, 70, gen.r_u8(rng)]))
+                vals.append(gen.rbytes(rng, rng.choice([0, 1, 4, 4, 8, 100, 200, 253, 254, 255])))
+        cs.append(Case(12, ints, vals, "open.encode-structure"))
     # add-path tuples: all direction octets, lengths around multiples of 4
     for d in range(256):
         cs.append(Case(8, [], [bytes([0, 1, 1, d])], "addpath.dir"))
